@@ -184,3 +184,14 @@ Proof.
   vm_compute. split; [|repeat split].
   repeat constructor; simpl; intuition discriminate.
 Qed.
+
+(* Non-vacuity of the failed-merge path: the merge of three files fails; nothing is left on disk, the inputs stay served,
+   the first file becomes unmergeable, the next eligible run (files 1,2 would need 1 < 1: none) is not merged. *)
+Example ex_failed_merge_leaves_nothing :
+  let capdb := fun k : N => match k with 0 => [(0, 3)] | 1 => [(1, 2)] | 2 => [(2, 1)] | _ => [] end in
+  let st := fold_left (step_impl capdb (fun _ => false))
+              [AImport [0]; AStart KImport; AComplete KImport; AImport [1]; AStart KImport; AComplete KImport;
+               AImport [2]; AStart KImport; AComplete KImport; AMergeFail; AComplete KMerge] init in
+  map f_uid (indexes st) = [0; 1; 2] /\ used st = [(0, 1); (1, 1); (2, 1)] /\ disk st = [2; 1; 0] /\
+  nunm st = 1%nat /\ quiescent st.
+Proof. vm_compute. repeat split. Qed.
